@@ -218,7 +218,20 @@ def enum_family(run, gv, gm, alpha, wrapk, mode, total, label):
                                    "impl": il[i], "model": ml.get(i), "oracle": " ".join(v)})
                 found += 1
             else:
-                nojudge.append({"index": i, "input": s, "impl": il[i], "model": ml.get(i)})
+                # the literal recogniser has no opinion on a string that is not ONE literal: ask the spec lexer
+                # whether the crate's token sequence (or its refusal) is the spec's
+                msg = None
+                try:
+                    msg = pfam.tokens_vs_spec(s, il[i])
+                except Exception:
+                    msg = None
+                if msg:
+                    if found < 5:
+                        run.violation({"kind": "impl-vs-spec", "family": label, "index": i, "input": s,
+                                       "impl": il[i], "model": ml.get(i), "oracle": msg})
+                    found += 1
+                else:
+                    nojudge.append({"index": i, "input": s, "impl": il[i], "model": ml.get(i)})
     if diff_blocks and not found:
         run.violation({"kind": "correspondence-broken", "family": label,
                        "what": "implementation and model differ on projection '%s' but the spec oracle accepts the implementation's output on every differing input examined" % mode,
@@ -541,6 +554,24 @@ def check_c17(run, replay):
     panics_family(run, gv, "utf8", total, "F-utf8-panics-release")
     panics_family(run, gvd, "utf8", total_upto(len(ALPHABETS["utf8"]), maxlen - 1), "F-utf8-panics-debug")
     bom_files_family(run, gv, 3 if run.tier == "quick" else 4)
+    # characters whose encodings sit at the edges of the UTF-8 byte classes (lead bytes C2, DF, E0, EF, F0, F4;
+    # continuation bytes 80 and BF): every string <= 3 over them and the token-forming ASCII characters, scanned and
+    # parsed with the assertion compiled in, compared with the model and judged by the spec lexer
+    edge = "a+<=\"' \u0080\u00bf\u07ff\u0800\u5fff\ufffd\uffff\U00010000\U0003ffff\U0010ffff"
+    famu = Families(run, gv, gm)
+    ecases = []
+    for i in range(total_upto(len(edge), 3 if run.tier == "quick" else 4)):
+        w = decode(edge, i)
+        ecases.append(pfam.Case(w, "F-utf8-edges"))
+    impl_e, mod_e, toks_e = famu.exec(ecases, mode="tokens")
+    famu.judge(ecases, impl_e, mod_e, toks_e, "full", oracle_tokens, "byte-class edge characters at every offset of a token")
+    pcs = [pfam.Case("package p; var _ = " + c.src, "F-utf8-edges-parse") for c in ecases] + \
+        [pfam.Case("package p; func f() { " + c.src + " }", "F-utf8-edges-parse") for c in ecases[:: 3]]
+    impl_p, mod_p, toks_p = famu.exec(pcs)
+    famu.judge(pcs, impl_p, mod_p, toks_p, "outcome", None, "the same strings parsed")
+    run.extra.setdefault("families", []).extend(dict(v, family=k) for k, v in sorted(famu.fam_stats.items()))
+    if famu.corr_broken and not any(not ni for _, ni in run.violations):
+        broken.append(("correspondence on F-utf8-edges", json.dumps(famu.corr_broken[:3])[:3000]))
     run.cov["distinct_nontrivial"] = sum(1 for i in range(min(total, 200000)) if any(ord(c) > 127 for c in decode(ALPHABETS["utf8"], i)))
     run.cov["rule"] = ("exhaustive: every string of length <= %d over 1-, 2-, 3- and 4-byte characters, operator characters, digits, quotes, "
                        "blank and newline; scanned alone (crate vs extracted model) and parsed as a variable initialiser and as a statement "
@@ -795,6 +826,10 @@ def check_c04(run, replay):
         c.note = "expr"
     fam.judge(cases, impl, mod, toks, "shape", pfam.oracle_expected_shape,
               "operators group by the spec's five precedence levels, left associative; unary binds tighter")
+    ctx = pfam.ops_context_cases()
+    impl_c, mod_c, toks_c = fam.exec(ctx)
+    fam.judge(ctx, impl_c, mod_c, toks_c, "shape", pfam.oracle_contains_shape, "the same grouping on every path into the expression parser")
+    cases = cases + ctx
     run.cov["rule"] = ("exhaustive: every sequence of 1, 2, 3%s of the 19 binary operators over distinct operands, every unary operator "
                        "in every operand slot of every binary operator, every unary operator before every postfix form and before every "
                        "unary operator; plus random mixtures with one parenthesised sub-range; parsed through Parser::expression by crate "
@@ -1743,6 +1778,22 @@ def check_c01(run, replay):
         for c in cs:
             c.style = mode
         fam.judge(cs, impl, mod, toks, "outcome", no_crash, "entry point %s returns" % mode)
+    # the disk entry point (read, strip one byte order mark, parse): a sample of the inputs plus the degenerate
+    # files, each with and without a byte order mark, in both builds
+    import shutil
+    fsrcs = ["", "\n", "package", "package p", "\ufeff", "\ufeffpackage p", "x", "\u00e9", "package p\nvar s = \"\u65e5\"\n"] + \
+        [c.src for c in general[:: max(1, len(general) // 300)]]
+    for b, name in ((gv, "release"), (gvd, "debug")):
+        base_d = os.path.join(vlib.WORK, "c01files")
+        shutil.rmtree(base_d, ignore_errors=True)
+        try:
+            for bom in (False, True):
+                lines = _file_lines(b, os.path.join(base_d, "bom" if bom else "plain"), fsrcs, bom)
+                fcases = [pfam.Case(("\ufeff" if bom else "") + s_, "F-file-entry", style="file/" + name) for s_ in fsrcs]
+                fam.judge(fcases, lines, [None] * len(fcases), [None] * len(fcases), "outcome", no_crash,
+                          "parse_file on a file with%s byte order mark (%s build) returns" % ("" if bom else "out", name))
+        finally:
+            shutil.rmtree(base_d, ignore_errors=True)
     time_growth(run, fam, gv)
     impl, mod, toks = fam.exec(nest_small)
     fam.judge(nest_small, impl, mod, toks, "errloc", no_crash, "nesting around the caps: crate == model incl. where the depth error is raised")
@@ -1800,8 +1851,10 @@ def check_c18(run, replay):
             src = re.sub(r"^(\s*)package\s+\S+", lambda m: m.group(1) + "package " + pkg, src, count=1)
             if not re.match(r"\s*package\s", src):
                 src = "package %s\n" % pkg
-            bom = rng.random() < 0.25
-            data = (b"\xef\xbb\xbf" if bom else b"") + src.encode("utf8")
+            rb = rng.random()
+            bom = rb < 0.3
+            # exactly one byte order mark is removed: a second one is file content (and no Go token)
+            data = (b"\xef\xbb\xbf" * (2 if rb < 0.06 else 1) if bom else b"") + src.encode("utf8")
             kind = "valid"
             if fault and fi == nfiles - 1 - rng.randrange(1 + nfiles // 2) and ext == ".go":
                 if fault == "utf8":
@@ -1987,6 +2040,16 @@ def check_c19(run, replay):
     for cp in cps:
         srcs.append("package p; var a%s int" % chr(cp))
         srcs.append("package p; var %s int" % chr(cp))
+    # long runs of one literal form each (hex floats, decimal floats with exponents, escapes, raw strings, comments,
+    # operators, deep nesting): parsed by 16 threads at once, so state shared between scanners or parsers has a wide window
+    n_ = 1500
+    srcs += ["package p; var x = []float64{" + "0x1.Fp+0, 0xA.8p-3, " * n_ + "}",
+             "package p; var x = []float64{" + "1.5e+3, 2.5E-7, 6.02e23, " * n_ + "}",
+             "package p; var x = []int{" + "0b1011, 0o17, 017, 0xBadFace, 1_000, " * n_ + "}",
+             "package p; var x = []rune{" + "'\\u65e5', '\\x41', '\\101', '\\n', " * n_ + "}",
+             "package p; var x = []string{" + "\"a\\tb\\u00e9\", `raw\n`, " * n_ + "}",
+             "package p; func f() { " + "x <<= 1; y &^= z; c <- v; /* c */ // d\n " * n_ + "}",
+             "package p; var x = " + "(" * 60 + "y" + ")" * 60 + "; var z = " + "- " * 150 + "y"] * 2
     rounds = budget(run, 2, 6)
     total_exec = 0
     for r in range(rounds):
